@@ -505,6 +505,59 @@ def rule_D5(ctx) -> None:
             ctx.refuted("D5", name, ",".join(sorted(rets))[:100], mod.loc(fn), f"a {shape} annotation yields the default generator {sorted(rets)}, expected {want_txt}")
 
 
+def rule_D8(ctx) -> None:
+    """a field default is a fresh value per call: what _get_field_default returns is the result of calling the generator on that
+    very path - not a value read from state shared by the instances of the class, and not stored there either.  The lazily
+    materialised default becomes part of one instance and is filled in place; a shared one leaks content between messages."""
+    mod = ctx.repo.mod(M_INIT)
+    fn = mod.func("Message._get_field_default")
+    ctx.analysed("Message._get_field_default")
+    paths = Interp(mod, fork_ifexp=True).run(fn)
+    ctx.count(len(paths))
+    name = "_get_field_default:fresh-per-call"
+    shared, stored, unknown = [], [], []
+    n_ret = 0
+
+    def immutable_only(p) -> bool:
+        # the path is taken only for values that cannot be filled in place (an isinstance / issubclass test against Message failed)
+        return any((k[0] == "call" and dotted(k[1]) in ("isinstance", "issubclass") and "Message" in show(k) and not v) for k, v in p.valuation.items())
+
+    for p in paths:
+        if p.outcome != "return" or p.value is None:
+            continue
+        n_ret += 1
+        v = p.value
+        made_here = v[0] == "call" and any(e.kind == "call" and e.data == v for e in p.events)
+        if not made_here:
+            if v[0] in ("sub", "a") or (v[0] == "call" and v[1][0] == "a" and v[1][2] in ("get", "setdefault", "pop")):
+                if not immutable_only(p):
+                    shared.append((p, v))
+            else:
+                unknown.append((p, v))
+            continue
+        for e in p.events:
+            if e.kind == "store" and e.data[1] == v and e.data[0][0] in ("sub", "a"):
+                if not immutable_only(p):
+                    stored.append((p, e.data[0]))
+            if e.kind == "call" and e.data[1][0] == "a" and e.data[1][2] in ("setdefault", "__setitem__", "append", "add") and v in e.data[2]:
+                if not immutable_only(p):
+                    stored.append((p, e.data[1][1]))
+    if n_ret == 0:
+        raise AnalysisError("_get_field_default: no returning path")
+    if shared:
+        p, v = shared[0]
+        ctx.refuted("D8", name, "shared:" + show(v)[:60], mod.loc(fn), f"_get_field_default can return {show(v)}, a value kept in state shared by all instances, instead of a freshly generated one: "
+                    "the default sub-message materialised into one message is the same object in every other message of the class", "a = M(); a.child.items.append(1); M().child.items")
+    elif stored:
+        p, t = stored[0]
+        ctx.refuted("D8", name, "stored:" + show(t)[:60], mod.loc(fn), f"the generated default is also stored in {show(t)} (shared by the instances of the class) and handed out again later: "
+                    "defaults filled in place leak between messages", "a = M(); a.child.items.append(1); M().child.items")
+    elif unknown:
+        ctx.inconclusive("D8", name, f"returned default {show(unknown[0][1])[:80]} is neither generated on the path nor a plain shared read", mod.loc(fn))
+    else:
+        ctx.proved("D8", name, mod.loc(fn), f"{n_ret} returning paths, each returns the generator's result of that call")
+
+
 # ---------------------------------------------------------------------------
 # O1 who may write
 
@@ -1267,3 +1320,99 @@ def rule_O5(ctx, rule: str = "O5") -> None:
         ctx.inconclusive(rule, "_include_default_value_for_oneof:selection-only", "selection test not recognised", mod.loc(fn))
     else:
         ctx.proved(rule, "_include_default_value_for_oneof:selection-only", mod.loc(fn), f"{len(paths)} paths")
+
+
+# ---------------------------------------------------------------------------
+# O6 decoded members are assigned in wire order
+
+
+def rule_O6(ctx, rule: str = "O6") -> None:
+    """the decoder hands every decoded singular value to __setattr__ in the order the records appear on the wire (that is what
+    makes the last oneof member win): the assignment with a computed field name sits inside the loop that takes records from
+    the reader - or, when it is deferred to a later loop, that loop replays an order-preserving log (a list), not a dict keyed by
+    field name (a dict keeps a key at its first insertion position)"""
+    mod = ctx.repo.mod(M_INIT)
+    fn = mod.func("Message.load")
+    ctx.analysed("Message.load")
+    readers = {"load_fields", "parse_fields"}
+    # names bound to a reader generator
+    gens = set()
+    for n in ast.walk(fn):
+        if isinstance(n, ast.Assign) and isinstance(n.value, ast.Call) and isinstance(n.value.func, ast.Name) and n.value.func.id in readers:
+            gens |= {t.id for t in n.targets if isinstance(t, ast.Name)}
+
+    def is_wire_loop(lp: ast.AST) -> bool:
+        if isinstance(lp, ast.For):
+            it = lp.iter
+            if any(isinstance(c, ast.Call) and isinstance(c.func, ast.Name) and c.func.id in readers for c in ast.walk(it)):
+                return True
+            if isinstance(it, ast.Name) and it.id in gens:
+                return True
+        for c in ast.walk(lp):
+            if isinstance(c, ast.Call) and isinstance(c.func, ast.Name) and c.func.id == "next" and c.args and isinstance(c.args[0], ast.Name) and c.args[0].id in gens:
+                return True
+        return False
+
+    parents = {}
+    for n in ast.walk(fn):
+        for c in ast.iter_child_nodes(n):
+            parents[c] = n
+
+    def loops_of(n: ast.AST):
+        out = []
+        while n in parents:
+            n = parents[n]
+            if isinstance(n, (ast.For, ast.While)):
+                out.append(n)
+        return out
+
+    sites = []
+    for n in ast.walk(fn):
+        if isinstance(n, ast.Call):
+            f = ast.unparse(n.func)
+            if (f == "setattr" and len(n.args) == 3 and not isinstance(n.args[1], ast.Constant)) or (
+                    f.endswith("__setattr__") and len(n.args) >= 2 and not isinstance(n.args[-2], ast.Constant)):
+                sites.append(n)
+        if isinstance(n, ast.Assign):
+            for t in n.targets:
+                if isinstance(t, ast.Subscript) and isinstance(t.value, ast.Attribute) and t.value.attr == "__dict__" and not isinstance(t.slice, ast.Constant):
+                    sites.append(n)
+    if not sites:
+        ctx.inconclusive(rule, "load:assigns-in-wire-order", "no assignment of a decoded value under a computed field name found in Message.load", mod.loc(fn))
+        return
+    ctx.count(len(sites))
+    for k, site in enumerate(sites):
+        lps = loops_of(site)
+        name = f"load:assigns-in-wire-order[{k}]" if len(sites) > 1 else "load:assigns-in-wire-order"
+        if any(is_wire_loop(lp) for lp in lps):
+            ctx.proved(rule, name, mod.loc(site), "inside the record loop")
+            continue
+        replay = next((lp for lp in lps if isinstance(lp, ast.For)), None)
+        if replay is None:
+            ctx.inconclusive(rule, name, "assignment outside the record loop and outside any replay loop", mod.loc(site))
+            continue
+        it = replay.iter
+        base = it.func.value if isinstance(it, ast.Call) and isinstance(it.func, ast.Attribute) and it.func.attr in ("items", "keys", "values") else it
+        if not isinstance(base, ast.Name):
+            ctx.inconclusive(rule, name, f"deferred assignment replays {ast.unparse(it)} (not a local log)", mod.loc(site))
+            continue
+        binds = [a.value for a in ast.walk(fn) if isinstance(a, (ast.Assign, ast.AnnAssign)) and a.value is not None and any(
+            isinstance(t, ast.Name) and t.id == base.id for t in (a.targets if isinstance(a, ast.Assign) else [a.target]))]
+        is_dict = bool(binds) and all(isinstance(b, (ast.Dict, ast.DictComp)) or (isinstance(b, ast.Call) and ast.unparse(b.func) in ("dict", "OrderedDict", "collections.OrderedDict")) for b in binds)
+        is_list = bool(binds) and all(isinstance(b, (ast.List, ast.ListComp)) or (isinstance(b, ast.Call) and ast.unparse(b.func) in ("list", "deque", "collections.deque")) for b in binds)
+        if is_list:
+            ctx.proved(rule, name, mod.loc(site), f"deferred, replaying the list {base.id} in record order")
+        elif is_dict:
+            # re-inserting after removing the key moves it to the end: the only order-preserving use of a dict here
+            moved = any(isinstance(c, ast.Call) and isinstance(c.func, ast.Attribute) and c.func.attr in ("pop", "move_to_end") and isinstance(c.func.value, ast.Name)
+                        and c.func.value.id == base.id for c in ast.walk(fn)) or any(
+                isinstance(d, ast.Delete) and any(isinstance(t, ast.Subscript) and isinstance(t.value, ast.Name) and t.value.id == base.id for t in d.targets) for d in ast.walk(fn))
+            if moved:
+                ctx.inconclusive(rule, name, f"deferred assignment from the dict {base.id} with re-insertion (order not analysed)", mod.loc(site))
+            else:
+                ctx.refuted(rule, name, f"deferred:{base.id}", mod.loc(site),
+                            f"decoded values are collected in the dict {base.id} keyed by field name and assigned after the record loop: a dict keeps a key at its first insertion "
+                            "position, so members are assigned in first-occurrence order and the oneof member that came last on the wire does not win when it also occurred earlier",
+                            "oneof {a=1; b=2}: records a, b, a  ->  b stays selected")
+        else:
+            ctx.inconclusive(rule, name, f"deferred assignment replays {base.id}, whose construction is not recognised", mod.loc(site))
